@@ -212,6 +212,10 @@ T.fns = [function() { return ++T.calls; }, {f: function() { return T.calls += 10
 T.proto = {pc: 0, inc: function() { return ++this.pc; }};
 T.child = Object.create(T.proto);
 T.alias = (function(a) { T.rd = function() { return a; }; return arguments; })(1);
+// helpers of the frames observation (FramesSrc): the stack of an error thrown
+// through a native function object tells WHICH runtime's call chain built it
+T.getCaller = function g() { return g.caller; };
+T.trace = function(f) { return (function inner() { try { return "ok:" + f(); } catch (e) { return e.name + "|" + String(e.stack).replace(/\d+/g, "#").replace(/\s+/g, " "); } })(); };
 "prelude";
 `
 
@@ -231,3 +235,32 @@ log(T.fact(3), T.same(), T.calls, T.ev(), T.cth(), T.wth(), T.gs, T.fns[0](), T.
 
 // ProbeMini is the short probe of the copy-only scenario.
 const ProbeMini = `T.arr.push(T.next()); log(T.arr.join(), T.re.lastIndex++, T.cat(TID), T.pushb(TID));`
+
+// FramesSrc is run on every COPY at rest (Finish) and, in the free-running
+// mode, also at the end of every copy thread. Native function objects that
+// exist per runtime instance and are created at run time - the
+// [[ThrowTypeError]] accessor of a bound function, the caller getter of a
+// function, the stack getter of an error, reflected Go functions and methods -
+// carry Go closures the heap walk cannot look into. Each of them was created in
+// the TEMPLATE; here it is used in the copy next to a twin created in the copy
+// itself (FB, gconv2, gstruct2), in the same call chain: the stack frames of the
+// errors they throw must be identical (digits blanked). A closure that still
+// works for the template's runtime builds its error from the template's scope
+// chain and gives different frames.
+const FramesSrc = `
+var FB = (function() {}).bind(null), FOREIGN = [];
+function sameFrames(what, a, b) { if (a !== b) { FOREIGN.push(what + ": template-created {" + a + "} copy-created {" + b + "}"); } return a; }
+[sameFrames("get bound.caller", T.trace(function() { return T.bound.caller; }), T.trace(function() { return FB.caller; })),
+ sameFrames("get bound.arguments", T.trace(function() { return T.cat.arguments; }), T.trace(function() { return FB.arguments; })),
+ sameFrames("set bound.caller", T.trace(function() { T.pushb.caller = 1; }), T.trace(function() { FB.caller = 1; })),
+ sameFrames("reflected Go function", T.trace(function() { return gconv(); }), T.trace(function() { return gconv2(); })),
+ sameFrames("reflected Go function, conversion", T.trace(function() { return gconv({}); }), T.trace(function() { return gconv2({}); })),
+ sameFrames("Go method", T.trace(function() { return gstruct.Twice(1); }), T.trace(function() { return gstruct2.Twice(1); })),
+ T.trace(function pc() { return T.getCaller() === pc; }), T.trace(function() { return null.x; }),
+ String(T.err.stack).replace(/\d+/g, "#").replace(/\s+/g, " ")].join(" ;; ") + (FOREIGN.length ? " FOREIGN-FRAMES " + FOREIGN.join(" ## ") : "");
+`
+
+// TemplateSpin keeps the template itself busy (free-running mode only) while
+// its copies run: a copy that reaches into the template's runtime then races
+// with the template's own scope stack.
+const TemplateSpin = `for (var spin = 0; spin < 60; spin++) { (function(a) { return [a].concat(spin).length; })(spin); } spin;`
